@@ -794,6 +794,10 @@ func createRegionSearchKey(table, key []byte) []byte {
 	// Shorten the key such that the generated meta key is <= MAX_ROW_LENGTH (MaxInt16), otherwise
 	// HBase will throw an exception.
 	keylen := math.MaxInt16 - len(table) - 3
+	if keylen < 0 {
+		// no table has a name this long, but hbase:meta may claim so
+		keylen = 0
+	}
 	if len(key) < keylen {
 		keylen = len(key)
 	}
@@ -888,6 +892,13 @@ func (c *client) metaLookupForTable(ctx context.Context,
 			if _, ok := err.(region.OfflineRegionError); !ok {
 				c.logger.Debug("failed to parse region", "err", err)
 			}
+			continue
+		}
+
+		if !bytes.Equal(table, fullyQualifiedTable(reg)) {
+			// This would indicate a bug in HBase.
+			c.logger.Debug("meta returned an entry for the wrong table",
+				"table", strconv.Quote(string(table)), "region", reg)
 			continue
 		}
 
